@@ -21,6 +21,7 @@ def run(ctx):
     R.rule("C25-R2", "read-side walkers are const and look children up with find()", floor=8)
     R.rule("C25-R3", "writing operator[] creates intermediates as objects, errors on non-object intermediates", floor=3)
     R.rule("C25-R4", "merge: recurse iff both are objects, else right-hand side wins", floor=3)
+    R.rule("C25-R6", "json copy assignment reads its argument completely before it changes the destination (the argument may be a child of the destination)", floor=2)
     R.rule("C25-R5", "walkers descend only into objects: every children-map access through the walking pointer is guarded by type == object_ on that pointer", floor=10)
 
     walkers = {
@@ -132,6 +133,42 @@ def run(ctx):
             R.ob("C25-R5", ok, f.q, "children of *%s read only when %s is an object" % (base["n"], base["n"]), f.site(n),
                  "guarded by the type test on the same pointer" if ok else
                  "the children map of a node is consulted without knowing it is an object: after `j[\"a/b/c\"] = 1; j[\"a/b\"] = 7;` the leaf a/b still owns its old children, so the path a/b/c is reported although a/b is a number")
+
+    # ---- R6: j["b"] = j["b/a"] - the source may live inside the destination ------------------------------------------------------------
+    for f in prog.fns("occa::json::operator="):
+        ps = f.d["params"]
+        if len(ps) != 1 or "occa::json" not in f.tname(ps[0]["t"]) or "&" not in f.tname(ps[0]["t"]):
+            continue
+        pd = ps[0]["d"]
+        cfg = f.cfg
+        muts = []
+        for n in f.walk():
+            t = write_target(n)
+            if t is not None and noid(render(strip(t), False)).startswith("this->"):
+                muts.append(n)
+            if is_call(n) and callee(n) in ("std::swap", "occa::json::clear") or (is_call(n) and callee(n).startswith("std::swap")):
+                if any("this->" in noid(render(a, False)) for a in kids(n)[1:]) or callee(n) == "occa::json::clear":
+                    muts.append(n)
+        reads = [n for n in f.walk() if n["k"] == "DeclRefExpr" and n.get("d") == pd]
+        if not muts or not reads:
+            raise AnalysisBroken("json::operator=(const json&): no mutation / no read of the argument found")
+        bad = None
+        for m in muts:
+            for r in reads:
+                if any(a["i"] == m["i"] for a in f.ancestors(r)):
+                    # the read is an operand of the mutating statement itself: this->x = j.x copies while it overwrites
+                    if write_target(m) is not None and noid(render(strip(write_target(m)), False)) in ("this->type",):
+                        continue       # a scalar: nothing of the source is destroyed by overwriting it
+                    bad = (m, r)
+                    break
+                if cfg.find_path(cfg.position(m), lambda b, i, e, r=r: e == r["i"], lambda b, i, e: False) is not None:
+                    bad = (m, r)
+                    break
+            if bad:
+                break
+        R.ob("C25-R6", bad is None, f.q, "argument read before the destination changes", f.site(bad[0]) if bad else "%s:%d" % (f.relfile, f.d["line"]),
+             "the source is copied into locals first (%d reads, %d mutations)" % (len(reads), len(muts)) if bad is None else
+             "the destination is modified and the argument is read afterwards / while its children are overwritten: `j[\"b\"] = j[\"b/a\"]` frees the map node that holds the source while copying from it (heap-use-after-free)")
 
 
 META = {
